@@ -355,7 +355,9 @@ fn trim_sample(j: J) -> J {
 pub fn worker_main(prop: &dyn Property, tier: Tier, seed: u64, k: u64, n: u64, out: &Path, progress: &Path) {
     install_quiet_panic_hook();
     let start = Instant::now();
-    let total = prop.quick_cases() * tier.scale();
+    // VERIF_QUICK_DIV: development aid only (smaller runs while measuring a generator); never set by the registered commands
+    let div: u64 = std::env::var("VERIF_QUICK_DIV").ok().and_then(|s| s.parse().ok()).filter(|d| *d >= 1).unwrap_or(1);
+    let total = prop.quick_cases() * tier.scale() / div;
     let my_cases = total / n + if k < total % n { 1 } else { 0 };
     let known = load_known(prop.id());
     let stats = RefCell::new(Stats::default());
